@@ -21,7 +21,7 @@ def r_pure_pchk(ctx, prog):
     R = 'R-PURE-PCHK'
     ctx.rule(R, 'the LDPC-Staircase matrix constructor reads only its parameters, the PRNG state after seeding it itself and the trace '
              'level; it writes only the matrix it allocates, its scratch list, the PRNG state and the extra-entries marker; its call '
-             'site passes exactly (n-k, n, N1, seed, cb) and does not depend on the codec role', floor=6)
+             'site passes exactly (n-k, n, N1, seed, cb) and does not depend on the codec role', floor=1)
     f = prog.need_fn(PCHK, R)
     tt = Terms(f)
     eff = effects(prog)
@@ -118,7 +118,7 @@ REVIEWED_GLOBALS = {
 def r_globals(ctx, prog):
     R = 'R-GLOBALS'
     ctx.rule(R, 'the writable globals/statics of the library are exactly the reviewed ones, each written only by its reviewed writers; '
-             'libc rand() is used only to permute an injection order', floor=8)
+             'libc rand() is used only to permute an injection order', floor=1)
     eff = effects(prog)
     seen = set()
     for u in prog.units:
@@ -237,7 +237,7 @@ def r_colfill(ctx, prog):
     R = 'R-COLFILL'
     ctx.rule(R, 'the left side of H is filled column by column over exactly the source columns n-k .. n-1, N1 times per column, each '
              'time inserting exactly one entry into that column at a row just tested absent: every source column gets exactly N1 ones',
-             floor=3)
+             floor=1)
     f = prog.need_fn(PCHK, R)
     tt = Terms(f)
     M = _matrix_term(f, tt)
@@ -317,7 +317,7 @@ def r_staircase(ctx, prog):
     R = 'R-STAIRCASE'
     ctx.rule(R, 'outside the column fill and the extra-entry loop the constructor inserts exactly the staircase: (i,i) for 0 <= i < n-k '
              'and (i,i-1) for 1 <= i < n-k, computed from the insertion arguments as affine functions of the loop counter and the loop '
-             'range', floor=2)
+             'range', floor=1)
     f = prog.need_fn(PCHK, R)
     tt = Terms(f)
     M = _matrix_term(f, tt)
@@ -392,7 +392,7 @@ def _affine(t, iv):
 def r_extra_mark(ctx, prog):
     R = 'R-EXTRA-MARK'
     ctx.rule(R, 'every insertion that is neither the column fill nor the staircase (the extra entries for rows of weight < 2) is counted, '
-             'and the marker stored in the control block is true exactly when that count is at least one', floor=2)
+             'and the marker stored in the control block is true exactly when that count is at least one', floor=1)
     f = prog.need_fn(PCHK, R)
     tt = Terms(f)
     M = _matrix_term(f, tt)
@@ -499,7 +499,7 @@ def _all_paths_store(f, stores, target):
 def r_flag_truth(ctx, prog):
     R = 'R-FLAG-TRUTH'
     ctx.rule(R, 'OF_CRTL_LDPC_STAIRCASE_IS_LAST_SYMBOL_NULL answers true iff no extra entries were added and N1 is even (truth table '
-             'over the two booleans, enumerated over the path conditions); the answer does not depend on the codec role', floor=4)
+             'over the two booleans, enumerated over the path conditions); the answer does not depend on the codec role', floor=1)
     f = prog.need_fn(LDPC_GET, R)
     tt = Terms(f)
     st = 'of_ldpc_staircase_cb'
@@ -572,7 +572,7 @@ def _bool_value(f, tt, v, assume, removed):
 def r_nullfeed(ctx, prog):
     R = 'R-NULLFEED'
     ctx.rule(R, 'the decoder submits a zero symbol to itself only when the last-symbol-null query answered true, with a zeroed buffer of '
-             'encoding_symbol_length bytes and ESI n-1', floor=3)
+             'encoding_symbol_length bytes and ESI n-1', floor=1)
     f = prog.need_fn(LDPC_SET, R)
     tt = Terms(f, forward=True)
     st = 'of_ldpc_staircase_cb'
@@ -627,7 +627,7 @@ def r_role_form(ctx, prog):
     """Every test of the session role anywhere in the library is a mask test (codec_type & OF_ENCODER / OF_DECODER) != 0:
     OF_ENCODER_AND_DECODER sessions must take both sides."""
     R = 'R-ROLE-FORM'
-    ctx.rule(R, 'every branch on codec_type is a mask test against OF_ENCODER or OF_DECODER', floor=8)
+    ctx.rule(R, 'every branch on codec_type is a mask test against OF_ENCODER or OF_DECODER', floor=1)
     from .ir import out_edges, cond_atoms
     for f in prog.all_functions:
         tt = Terms(f)
